@@ -171,14 +171,7 @@ func vxSetup() (*Synchronizer, *vxSource, int) {
 	for i := F; i < m; i++ {
 		vx.Assume(!vxLocal[i].Equal(&src.remote[i]))
 	}
-	s := &Synchronizer{
-		blockchain: new(blockchain.Blockchain),
-		dataSource: src,
-		logger:     log.NewNopZapLogger(),
-		listener:   &SelectiveListener{},
-		newHeads:   feed.New[*core.Block](),
-		reorgFeed:  feed.New[*ReorgBlockRange](),
-	}
+	s := New(new(blockchain.Blockchain), src, log.NewNopZapLogger(), 0, false, nil)
 	vxHeadSub, vxReorgSub = s.newHeads.Subscribe(), s.reorgFeed.Subscribe()
 	return s, src, F
 }
